@@ -90,3 +90,22 @@ func DebugGuards(p *core.Program, rel, name string) {
 		})
 	}
 }
+
+// DebugDNF prints the path conditions of the blocks containing calls to the named callee.
+func DebugDNF(p *core.Program, rel, name, callee string) {
+	fn := p.Func(rel, name)
+	if i := strings.Index(name, "."); i > 0 {
+		fn = p.Method(rel, name[:i], name[i+1:])
+	}
+	if fn == nil {
+		fmt.Println("not found")
+		return
+	}
+	for _, s := range callsIn(fn, nameIs(callee)) {
+		ins := s.(ssa.Instruction)
+		fmt.Println(p.Pos(core.PosOf(ins)), shortCallee(s))
+		for _, d := range pathDNF(ins.Block()) {
+			fmt.Println("   ", d)
+		}
+	}
+}
